@@ -33,6 +33,19 @@ def DSIS.cardinality (d : DSIS) : R Nat := do
   let cs ← d.sis.mapM SI.cardinality
   return cs.sum
 
+/-- `min(signed)` / `max(signed)` (as repaired: over the non-empty members; `none` for the empty set) -/
+def DSIS.minQ (d : DSIS) (signed : Bool) : R (Option Int) := do
+  let vals ← (d.sis.filter fun s => !s.bottom).mapM fun s => s.min signed
+  match vals.filterMap id with
+  | [] => return none
+  | v :: vs => return some (vs.foldl (fun m x => if x < m then x else m) v)
+
+def DSIS.maxQ (d : DSIS) (signed : Bool) : R (Option Int) := do
+  let vals ← (d.sis.filter fun s => !s.bottom).mapM fun s => s.max signed
+  match vals.filterMap id with
+  | [] => return none
+  | v :: vs => return some (vs.foldl (fun m x => if x > m then x else m) v)
+
 /-- `collapse()`: fold `_union` (= smart `pseudo_join`) over the iteration order -/
 def DSIS.collapse (d : DSIS) : R SI :=
   match d.cardinality with
